@@ -5,7 +5,8 @@ Site kinds: 0 = np.random.<draw>(...) on the global generator; 1 = a selection h
 rand_argmin, simple_batch, majority_vote, _greedy_sampling, k_greedy_center, ...) called with
 random_state omitted or literally None; 2 = check_random_state(None) / check_random_state() ;
 3 = an estimator whose constructor accepts random_state built without one (incl. the dynamic
-`self.cluster_algo(**cluster_algo_dict)` pattern)."""
+`self.cluster_algo(**cluster_algo_dict)` pattern); 4 = a seed selected by truthiness (`random_state or <fallback>`,
+`<x> if random_state else <y>`): the valid seed 0 silently takes the fallback."""
 import ast
 import importlib
 import inspect
@@ -41,6 +42,18 @@ def scan(root="/repo/skactiveml"):
                 if isinstance(node, (ast.FunctionDef, ast.AsyncFunctionDef)):
                     for sub in ast.walk(node):
                         funcs.setdefault(id(sub), node.name)
+            # kind 4: truthiness test of a seed
+            for node in ast.walk(tree):
+                tested = None
+                if isinstance(node, ast.BoolOp) and isinstance(node.op, ast.Or):
+                    tested = node.values[0]
+                elif isinstance(node, ast.IfExp):
+                    tested = node.test.operand if isinstance(node.test, ast.UnaryOp) and isinstance(node.test.op, ast.Not) else node.test
+                if tested is not None and isinstance(tested, (ast.Name, ast.Attribute)):
+                    nm = tested.id if isinstance(tested, ast.Name) else tested.attr
+                    if "random_state" in nm or nm in ("seed", "random_seed"):
+                        sites.append((4, os.path.relpath(path, "/repo"), funcs.get(id(node), "<module>"), node.lineno,
+                                      f"seed chosen by truthiness: {ast.unparse(node)[:60]}"))
             for node in ast.walk(tree):
                 if not isinstance(node, ast.Call):
                     continue
